@@ -358,9 +358,13 @@ class Evaluator:
         if k == 'match':
             return self.ev_match(e, ctx)
         if k == 'loop':
+            untouched = {i for i, kd in ctx.sink_kind.items() if i != '#touched' and kd[0] == 'vec'} - ctx.sink_kind.get('#touched', set())
             v, t = self.ev(e['body'], ctx)
             if t == ['eps']:
                 return (('unit',), t)
+            c = canon_counter_loop(t) or canon_fill_loop(t, untouched)
+            if c is not None:
+                return (('unit',), c)
             return (('unit',), ['star', ('loop',), t])
         if k in ('return', 'break'):
             v, t = self.ev(e['e'], ctx) if e.get('e') else (('unit',), ['eps'])
@@ -747,6 +751,10 @@ class Evaluator:
             return (('unknown',), cat(pre, self.opaque('%s passed to %s' % (what, e['fa']), e, ctx)))
         mut_args = [a for a in argv if _is_mut_ref(a)]
         if mut_args and not local:
+            for a in argv:
+                ls = self.local_sink(a, ctx)
+                if ls is not None:
+                    ctx.sink_kind.setdefault('#touched', set()).add(ls)
             return (('call', name, f, argv, tuple(e['ga']), tr, e.get('loc')),
                     cat(pre, ['MUTCALL', name, f, [strip(a) for a in argv], e.get('loc'), tuple(e['ga'])]))
         if (name in OWN_NAMES or e.get('unsafe')) and not local:
@@ -788,6 +796,166 @@ class Evaluator:
             # the raw bytes of the value, without any framing
             return ['write', sl]
         return self.opaque('callback argument of unrecognised form', e, ctx)
+
+
+def subst_any(x, pred, repl):
+    """replace every sub-value satisfying pred in a term / value"""
+    if isinstance(x, tuple):
+        if x and pred(x):
+            return repl
+        return tuple(subst_any(y, pred, repl) for y in x)
+    if isinstance(x, list):
+        return [subst_any(y, pred, repl) for y in x]
+    return x
+
+
+def _mutvars_in(x, acc):
+    if isinstance(x, tuple):
+        if x and x[0] == 'mutvar':
+            acc.add(x[1])
+            return acc
+        for y in x:
+            _mutvars_in(y, acc)
+    elif isinstance(x, list):
+        for y in x:
+            _mutvars_in(y, acc)
+    return acc
+
+
+def canon_counter_loop(t):
+    """`let mut i = 0; while i < n { body; i += 1 }` (n loop-invariant, i advanced exactly once, last) is the loop
+    `for i in 0..n { body }`: give both spellings the same term"""
+    its = items(t)
+    if len(its) != 1 or its[0][0] != 'alt':
+        return None
+    a = its[0]
+    if not (isinstance(a[1], tuple) and a[1][0] == 'if'):
+        return None
+    c = strip(a[1][1])
+    arms = dict(a[2])
+    if arms.get('false') not in (['eps'], None) or arms.get('true') is None:
+        return None
+    if not (isinstance(c, tuple) and c[0] == 'bin' and len(c) >= 4):
+        return None
+
+    def ismut(v):
+        return isinstance(v, tuple) and v and v[0] == 'mutvar'
+    l, r = strip(c[2]), strip(c[3])
+    if c[1] in ('Lt', 'Ne') and ismut(l):
+        ctr, bound = l, c[3]
+    elif c[1] in ('Gt', 'Ne') and ismut(r):
+        ctr, bound = r, c[2]
+    else:
+        return None
+    init = strip(ctr[3])
+    if not (isinstance(init, tuple) and init[0] == 'lit' and init[1] == 0):
+        return None
+    body = items(arms['true'])
+    if not body:
+        return None
+    last = body[-1]
+
+    def is_ctr(v):
+        v = strip(v)
+        return ismut(v) and v[1] == ctr[1]
+
+    def one(v):
+        v = strip(v)
+        return isinstance(v, tuple) and v[0] == 'lit' and v[1] == 1
+    if not (last[0] == 'SET' and is_ctr(last[1])):
+        return None
+    if last[3] == 'AddAssign':
+        if not one(last[2]):
+            return None
+    elif last[3] in ('Assign', None, '='):
+        v = strip(last[2])
+        if not (isinstance(v, tuple) and v[0] == 'bin' and v[1] == 'Add' and ((is_ctr(v[2]) and one(v[3])) or (is_ctr(v[3]) and one(v[2])))):
+            return None
+    else:
+        return None
+    rest = body[:-1]
+    set_ids = set()
+    for x in rest:
+        for y in walk(x):
+            if y[0] == 'SET':
+                tgt = strip(y[1])
+                if ismut(tgt):
+                    set_ids.add(tgt[1])
+    if ctr[1] in set_ids:
+        return None
+    bm = _mutvars_in(bound, set())
+    if ctr[1] in bm or (bm & set_ids):
+        return None
+    ty = init[2] if len(init) > 2 else 'usize'
+    rng = ('adt', 'core::ops::range::Range', 'Range', [(0, init), (1, bound)], 'core::ops::range::Range<%s>' % ty)
+    nb = subst_any(cat(*rest), lambda v: v[0] == 'mutvar' and v[1] == ctr[1], ('elem', rng))
+    return ['star', rng, nb]
+
+
+def canon_fill_loop(t, empty_sinks):
+    """`let mut v = Vec::new(); while v.len() < n { ..; v.push(x) }` (v untouched before the loop, pushed exactly once
+    per iteration, last; n loop-invariant) runs exactly n times: the loop `for _ in 0..n { ..; v.push(x) }`"""
+    its = items(t)
+    if len(its) != 1 or its[0][0] != 'alt':
+        return None
+    a = its[0]
+    if not (isinstance(a[1], tuple) and a[1][0] == 'if'):
+        return None
+    c = strip(a[1][1])
+    arms = dict(a[2])
+    if arms.get('false') not in (['eps'], None) or arms.get('true') is None:
+        return None
+    if not (isinstance(c, tuple) and c[0] == 'bin' and len(c) >= 4):
+        return None
+
+    def len_of_sink(v):
+        v = strip(v)
+        if isinstance(v, tuple) and v[0] == 'call' and v[1] == 'len' and len(v[3]) == 1:
+            r = strip(v[3][0])
+            if isinstance(r, tuple) and r[0] == 'sink' and r[1] in empty_sinks:
+                return r[1]
+        return None
+    if c[1] in ('Lt', 'Ne') and len_of_sink(c[2]) is not None:
+        k, bound = len_of_sink(c[2]), c[3]
+    elif c[1] in ('Gt', 'Ne') and len_of_sink(c[3]) is not None:
+        k, bound = len_of_sink(c[3]), c[2]
+    else:
+        return None
+    body = items(arms['true'])
+    if not body:
+        return None
+
+    def on_sink(ev_):
+        return ev_[0] == 'MUTCALL' and any(strip(x) == ('sink', k) for x in ev_[3])
+    last = body[-1]
+    if not (on_sink(last) and last[1] in ('push', 'push_back') and strip(last[3][0]) == ('sink', k)):
+        return None
+    n_touch = sum(1 for x in body for y in walk(x) if on_sink(y))
+    if n_touch != 1:
+        return None
+    set_ids = set()
+    for x in body:
+        for y in walk(x):
+            if y[0] == 'SET':
+                tgt = strip(y[1])
+                if isinstance(tgt, tuple) and tgt and tgt[0] == 'mutvar':
+                    set_ids.add(tgt[1])
+    if _mutvars_in(bound, set()) & set_ids:
+        return None
+    if any(isinstance(x, tuple) and x == ('sink', k) for x in _flatten_vals(bound)):
+        return None
+    rng = ('adt', 'core::ops::range::Range', 'Range', [(0, ('lit', 0, 'usize', ())), (1, bound)], 'core::ops::range::Range<usize>')
+    return ['star', rng, cat(*body)]
+
+
+def _flatten_vals(x):
+    if isinstance(x, tuple):
+        yield x
+        for y in x:
+            yield from _flatten_vals(y)
+    elif isinstance(x, list):
+        for y in x:
+            yield from _flatten_vals(y)
 
 
 def deinit(v, depth=0):
